@@ -1,9 +1,12 @@
 from __future__ import annotations
 
+import copy
+
 from datetime import date
 from datetime import datetime
 from datetime import timedelta
 from typing import TYPE_CHECKING
+from typing import Any
 from typing import Generic
 from typing import TypeVar
 from typing import cast
@@ -420,6 +423,10 @@ class Interval(Duration, Generic[_T]):
         self, protocol: SupportsIndex
     ) -> tuple[type[Self], tuple[_T, _T, bool]]:
         return self.__class__, self._getstate(protocol)
+
+    def __deepcopy__(self, memo: dict[int, Any]) -> Self:
+        # Duration.__deepcopy__ would call the constructor with duration components
+        return self.__class__(*copy.deepcopy(self._getstate(), memo))
 
     def __hash__(self) -> int:
         return hash((self.start, self.end, self._absolute))
